@@ -1,4 +1,4 @@
-import SleapVerif.Lemmas.GroupingFixOpt
+import SleapVerif.Lemmas.GroupingLexOpt
 /-!
 # C08 — peak grouping always terminates with a partition of the detected peaks
 
@@ -328,7 +328,55 @@ theorem matches_fixed_optimal_when_feasible {lsa : Lsa K} (ch : List Nat) (score
   rw [totalScore_eq_neg_cost, totalScore_eq_neg_cost]
   exact neg_le_neg (h3 M' IM')
 
+/-- **The precise reading of "the chosen matches maximise the total line score among one-to-one
+    assignments", for the repaired code and every NaN pattern**: the kept matches are a one-to-one
+    assignment on valid candidates with the *maximum number of pairs* among all such assignments
+    (any size, saturating or not) and, among those with that many pairs, the *maximum total score*.
+    (When a saturating valid assignment exists this is `matches_fixed_optimal_when_feasible`.)
+    From `LsaSpecOn` on the filled matrix, the pigeonhole extension of any assignment to a saturating
+    one (`extend_assign`), and the dominating sentinel. -/
+theorem matches_fixed_lex_optimal {lsa : Lsa K} (ch : List Nat) (scores : List (Mat (Option K)))
+    (k : Nat) (e : Edge) (S : LsaSpecOn lsa (fillInvalid (edgeCost ch scores k e))) :
+    ∃ ms, matchEdgeFixed lsa (edgeCost ch scores k e) = some ms ∧
+      ValidAssign (edgeCost ch scores k e) (rc ms) ∧
+      ∀ M', ValidAssign (edgeCost ch scores k e) M' →
+        M'.length ≤ (rc ms).length ∧
+        (M'.length = (rc ms).length →
+          totalScore (edgeCost ch scores k e) M' ≤ totalScore (edgeCost ch scores k e) (rc ms)) := by
+  unfold edgeCost costMatrix at S ⊢
+  obtain ⟨ms, h1, h2, h3⟩ := matchEdgeFixed_lexOptimal _ _ _ S
+  refine ⟨ms, h1, h2, fun M' VM' => ⟨(h3 M' VM').1, fun heq => ?_⟩⟩
+  rw [totalScore_eq_neg_cost, totalScore_eq_neg_cost]
+  exact neg_le_neg ((h3 M' VM').2 heq)
+
 end optimal
+
+/-- The clause is **false** when read as "maximum total score among one-to-one assignments of any
+    size": a single candidate with score `-1` (cost `1`; carrier `Int` so that `decide` evaluates it) is matched by every solver within the
+    contract, although matching nothing has the larger total (`0`).  Cardinality comes first;
+    the `min_line_scores` filter, not the matching, removes bad pairs. -/
+theorem matches_any_size_counterexample (lsa : Lsa Int) (S : LsaSpecOn lsa [[some 1]]) :
+    ∃ ms, matchEdgeAsIs lsa [[some (1 : Int)]] = some ms ∧ rc ms = [(0, 0)] ∧
+      cost (R := Int) [[some 1]] [] < cost (R := Int) [[some 1]] (rc ms) := by
+  have IM0 : IsMatching (R := Int) [[some 1]] [(0, 0)] :=
+    ⟨⟨by simp, by simp⟩, by simp [nRows, nCols], by simp [nRows, nCols], by simp [entry]⟩
+  obtain ⟨ms, hms⟩ := matchEdgeAsIs_total S ⟨_, IM0⟩
+  refine ⟨ms, hms, ?_⟩
+  unfold matchEdgeAsIs at hms
+  cases hl : lsa [[some 1]] with
+  | none => simp [hl] at hms
+  | some M =>
+    simp [hl] at hms; subst hms
+    rw [rc_toMatches]
+    have IM := (S.sound M hl).1
+    have hlen : M.length = 1 := by simpa [nRows, nCols] using IM.saturating
+    match M, hlen with
+    | [m], _ =>
+      have hr := IM.inRange m (by simp)
+      simp [nRows, nCols] at hr
+      have : m = (0, 0) := Prod.ext hr.1 hr.2
+      subst this
+      exact ⟨rfl, by decide⟩
 
 /-! ## totality -/
 
